@@ -3,8 +3,8 @@
    try_zeroed family of Model/Alloc.v over an allocator that may fail.  The bytes themselves come
    from alloc_zeroed / write_bytes and are observed by the harness on memory pre-filled with 0xA5. *)
 From Coq Require Import NArith List Bool String.
-From BM Require Import Base.Outcome Base.Prims Base.Own Base.Layout Model.Alloc Model.ZeroGuard Proofs.AllocProofs Proofs.AllocGenZero.
-From BM.Gen Require Alloc.
+From BM Require Import Base.Outcome Base.Prims Base.Own Base.Layout Model.Alloc Model.ZeroGuard Model.DropLang Proofs.AllocProofs Proofs.AllocGenZero Proofs.ZeroGen.
+From BM.Gen Require Alloc Zero.
 Import ListNotations.
 
 Theorem C12_fill_zeroes : forall panics ids,
@@ -56,6 +56,43 @@ Theorem C12_generated_unwrap : forall E T n,
   Gen.Alloc.zeroed_vec E T n = (r <- Gen.Alloc.try_zeroed_vec E T n ;; unwrap_unit r).
 Proof. exact gen_zeroed_unwrap_all. Qed.
 
+(* write_zeroes / fill_zeroes as the translator regenerates their statements from src/lib.rs (Gen/Zero.v;
+   what the statements mean — scopes, the drop guard, unwinding — is Model/DropLang.v): they compute exactly
+   the modelled runs, for every destructor oracle and every list of values, so C12_fill_zeroes,
+   C12_dropped_once and C12_fill_zeroes_plain are about the translated code *)
+Theorem C12_generated_write_zeroes : forall panics s d,
+  Gen.Zero.write_zeroes panics true (VPtr 0) (mkZmem [cell_of s] d Running) =
+  let '(s', dd, p) := write_zeroes panics s in mkZmem [cell_of s'] (d ++ dd) (status_of p).
+Proof. exact gen_write_zeroes. Qed.
+
+Theorem C12_generated_write_zeroes_plain : forall panics c d,
+  Gen.Zero.write_zeroes panics false (VPtr 0) (mkZmem [c] d Running) = mkZmem [CZero] d Running.
+Proof. exact gen_write_zeroes_nodrop. Qed.
+
+Theorem C12_generated_fill_zeroes : forall panics l,
+  Gen.Zero.fill_zeroes panics true (VSlice 0 (List.length l)) (mkZmem (map cell_of l) [] Running) =
+  mem_of_run (fill_zeroes_drop panics l).
+Proof. exact gen_fill_zeroes_drop. Qed.
+
+Theorem C12_generated_fill_zeroes_plain : forall panics l,
+  Gen.Zero.fill_zeroes panics false (VSlice 0 (List.length l)) (mkZmem (map cell_of l) [] Running) =
+  mem_of_run (fill_zeroes_nodrop l).
+Proof. exact gen_fill_zeroes_nodrop. Qed.
+
+Theorem C12_generated_fill_zeroes_spec : forall panics ids,
+  let m := Gen.Zero.fill_zeroes panics true (VSlice 0 (List.length ids)) (mkZmem (map COld ids) [] Running) in
+  match first_panic panics ids with
+  | Some j => cells m = repeat CZero (S j) ++ map COld (skipn (S j) ids) /\
+              dropped m = firstn (S j) ids /\ status m = Unwinding
+  | None => cells m = repeat CZero (List.length ids) /\ dropped m = ids /\ status m = Running
+  end.
+Proof. exact gen_fill_zeroes_spec. Qed.
+
+Example C12_generated_zero_nonvacuous :
+  Gen.Zero.fill_zeroes (fun id => Nat.eqb id 1) true (VSlice 0 3) (mkZmem [COld 0; COld 1; COld 2] [] Running) =
+  mkZmem [CZero; CZero; COld 2] [0; 1]%nat Unwinding.
+Proof. vm_compute. reflexivity. Qed.
+
 Example C12_generated_nonvacuous :
   let failing := mkEnv (fun _ => false) (fun _ => 0%N) (fun _ _ => 0%N) in
   let working := mkEnv (fun _ => false) (fun _ => 0%N) (fun _ _ => 4096%N) in
@@ -76,3 +113,8 @@ Print Assumptions C12_zeroed_slice_box.
 Print Assumptions C12_zeroed_vec.
 Print Assumptions C12_generated.
 Print Assumptions C12_generated_unwrap.
+Print Assumptions C12_generated_write_zeroes.
+Print Assumptions C12_generated_write_zeroes_plain.
+Print Assumptions C12_generated_fill_zeroes.
+Print Assumptions C12_generated_fill_zeroes_plain.
+Print Assumptions C12_generated_fill_zeroes_spec.
